@@ -93,14 +93,14 @@ impl AsyncCopiaSync {
         valid_bs(self.bs()),        // holds for every value the public constructors (new, with_block_size) can build
 //@ensures
         // C01 for the single-file `sync` command: success means the destination holds exactly the source's bytes
-        (collision_free() && res is Ok) ==> old(w).files.contains_key(aspr(&source_path)) && final(w).files.contains_key(aspr(&dest_path))
+        (collision_free() && idx_domain(*old(w)) && res is Ok) ==> old(w).files.contains_key(aspr(&source_path)) && final(w).files.contains_key(aspr(&dest_path))
             && final(w).files[aspr(&dest_path)] == old(w).files[aspr(&source_path)],
         // the reported numbers: source size, and matched + literal bytes sum to it
-        (collision_free() && res is Ok) ==> res->Ok_0.source_size == old(w).files[aspr(&source_path)].len()
+        (collision_free() && idx_domain(*old(w)) && res is Ok) ==> res->Ok_0.source_size == old(w).files[aspr(&source_path)].len()
             && res->Ok_0.bytes_matched + res->Ok_0.bytes_literal == res->Ok_0.source_size,
         // C16 for the single-file command: the destination is used as basis AT THE REQUESTED BLOCK SIZE - exactly the literal bytes
         // of the textbook greedy scan at self's block size (a destination identical to the source costs none)
-        (collision_free() && io_ok() && res is Ok && old(w).files.contains_key(aspr(&dest_path)) && old(w).files[aspr(&dest_path)] != old(w).files[aspr(&source_path)]) ==>
+        (collision_free() && idx_domain(*old(w)) && io_ok() && res is Ok && old(w).files.contains_key(aspr(&dest_path)) && old(w).files[aspr(&dest_path)] != old(w).files[aspr(&source_path)]) ==>
             res->Ok_0.bytes_literal == g_lit(old(w).files[aspr(&source_path)], old(w).files[aspr(&dest_path)], self.bs() as int, 0),
 //@replace /\.await/ =>  #all
 //@replace /use crate::sync::Sync;/ => 
@@ -122,7 +122,7 @@ impl AsyncCopiaSync {
 //@at? before /let bytes_matched = delta\.bytes_matched\(\);/
         proof {
             axiom_vec_len(&source_data); axiom_vec_len(&basis_data);
-            if collision_free() { lemma_c01_roundtrip(delta, basis_data@, source_data@); }
+            if collision_free() && idx_domain(w0) { lemma_c01_roundtrip(delta, basis_data@, source_data@); }
             lemma_total_is_lit_plus_cpy(delta.ops@);
         }
 //@end
@@ -160,7 +160,7 @@ pub fn run_sync_remote_to_local(host: &str, remote_path: &str, dest: &PathBuf, b
     valid_bs(block_size),
 //@ensures
     // C01, `copia sync SRC DST` on two local files: exit status 0 only with DST byte-identical to what SRC held
-    (collision_free() && res is Ok) ==> old(w).files.contains_key(pbv(source)) && final(w).files.contains_key(pbv(dest))
+    (collision_free() && idx_domain(*old(w)) && res is Ok) ==> old(w).files.contains_key(pbv(source)) && final(w).files.contains_key(pbv(dest))
         && final(w).files[pbv(dest)] == old(w).files[pbv(source)],
 //@replace? /sync\.sync_files\(((?:[^()]|\([^()]*\))*)\)/ => sync.sync_files(\1, Tracked(w)) #all
 //@at entry
@@ -177,7 +177,7 @@ pub fn run_sync_remote_to_local(host: &str, remote_path: &str, dest: &PathBuf, b
 //@ensures
     // for ANY --block-size value: an invalid one is a reported error, never the engine's assert! (C20-style clause); two local
     // files: success only with DST == SRC
-    (collision_free() && res is Ok && source is Local && dest is Local) ==> old(w).files.contains_key(pbv(&source->Local_0))
+    (collision_free() && idx_domain(*old(w)) && res is Ok && source is Local && dest is Local) ==> old(w).files.contains_key(pbv(&source->Local_0))
         && final(w).files.contains_key(pbv(&dest->Local_0)) && final(w).files[pbv(&dest->Local_0)] == old(w).files[pbv(&source->Local_0)],
 //@replace? /run_sync_local_to_local\(((?:[^()]|\([^()]*\))*)\)/ => run_sync_local_to_local(\1, Tracked(w)) #all
 //@end
